@@ -48,41 +48,39 @@ Definition set_pos (s : pst) (v : Z) : pst :=
   {| pos := v; ord := ord s; row := row s; frame := frame s; repos := repos s; sq := sq s; loopc := loopc s; speed := speed s;
      num_rows := num_rows s; end_point := end_point s; fl := fl s |}.
 
-(* the marker walk of set_position; the C loop has no bound of its own: fuel 256 covers the array *)
+(* the marker walk of set_position; walking forward stops at the end of the order list (the C returns there); fuel 256 covers the array *)
 Fixpoint walk (m : smod) (fuel : nat) (dir start p : Z) : Z :=
   match fuel with
   | O => p
   | S f => if sm_marker m && (xxo m p =? 254) then
-             (if dir <? 0 then (if start <? p then walk m f dir start (p - 1) else p) else walk m f dir start (p + 1))
+             (if dir <? 0 then (if start <? p then walk m f dir start (p - 1) else p)
+              else if sm_len m <=? p + 1 then p + 1 else walk m f dir start (p + 1))
            else p
   end.
 
-(* static void set_position(ctx, pos, dir) *)
+(* static void set_position(ctx, pos, dir): the order list is only read for 0 <= pos < len *)
 Definition set_position (m : smod) (s : pst) (p dir : Z) : pst :=
   let seq := if dir =? 0 then seqctl m p else sq s in
   if (seq =? 255) || (sm_nseq m <=? seq) then s
   else if seq <? 0 then s
   else
     let start := entry m seq in
-    let p' := if 0 <=? p then walk m 256 dir start p else p in
+    let inb := (0 <=? p) && (p <? sm_len m) in
+    let p' := if inb then walk m 256 dir start p else p in
     let pat := xxo m p' in
-    let early := (0 <=? p) && (pat <? sm_npat m) && sm_marker m && (pat =? 255) in
-    let '(nr, ep, jl) :=
-      if (0 <=? p) && (pat <? sm_npat m) then
-        (if zgd (sm_scan_ord m) seq <? p' then (num_rows s, 0, fl_jumpline (fl s))
-         else (rows_of m pat, zgd (sm_scan_num m) seq, 0))
-      else (num_rows s, end_point s, fl_jumpline (fl s)) in
-    if early then
+    let early := inb && ((sm_len m <=? p') || ((pat <? sm_npat m) && sm_marker m && (pat =? 255))) in
+    let '(nr, ep) :=
+      if inb && (pat <? sm_npat m) then
+        (if zgd (sm_scan_ord m) seq <? p' then (num_rows s, 0)
+         else (rows_of m pat, zgd (sm_scan_num m) seq))
+      else (num_rows s, end_point s) in
+    if early || (sm_len m <=? p') then
       {| pos := pos s; ord := ord s; row := row s; frame := frame s; repos := repos s; sq := seq; loopc := loopc s; speed := speed s;
          num_rows := num_rows s; end_point := end_point s; fl := fl s |}
-    else if p' <? sm_len m then
+    else
       let np := if p' =? 0 then -1 else p' in
       {| pos := np; ord := ord s; row := row s; frame := frame s; repos := np =? ord s; sq := seq; loopc := loopc s; speed := speed s;
-         num_rows := nr; end_point := ep; fl := flow_reset |}
-    else
-      {| pos := pos s; ord := ord s; row := row s; frame := frame s; repos := repos s; sq := seq; loopc := loopc s; speed := speed s;
-         num_rows := nr; end_point := ep;
-         fl := {| fl_jumpline := jl; fl_jump := fl_jump (fl s); fl_pbreak := fl_pbreak (fl s); fl_delay := fl_delay (fl s); fl_clean := fl_clean (fl s) |} |}.
+         num_rows := nr; end_point := ep; fl := flow_reset |}.
 
 Definition EINVAL := -7.        (* -XMP_ERROR_INVALID *)
 Definition XEND := -1.          (* -XMP_END *)
